@@ -42,7 +42,7 @@ HAND = [
     # an attribute assigned with '?=' and again with '=' / '+=' in every order and nesting that the compiler accepts
     "Model: flag?='on' ('+' other=ID)* (opt?='x' val=INT)? ('k' k=INT)+ ('z' k=INT)?;",
 ]
-BAD_PARAMS = ["[foo]", "[ws]", "[split]", "[split='']", "[skipws='x']", "[ws=]", "[noskipws, noskipws, ws='a', ws='b']", "[split=' ', ws='\\\\q']"]
+BAD_PARAMS = ["[nows]", "[nosplit]", "[noskipws, nows]", "[foo]", "[ws]", "[split]", "[split='']", "[skipws='x']", "[ws=]", "[noskipws, noskipws, ws='a', ws='b']", "[split=' ', ws='\\\\q']"]
 BAD_ESCAPES = [r"'\N{foo}'", r"'\x'", r"'\u12'", r"'\U0011'", r"'\N{BULLET}'", r"'a\\'", '"\\N{nope}x"']
 ODD_RULE_NAMES = ["__asgn_x", "__asgnfoo", "__asgn_plain", "_", "__init__", "OBJECT", "ID", "Comment", "import", "eolterm"]
 BAD_REGEX = ["/(/", "/[/", "/*/", "/(?P<a>x)(?P<a>y)/", "/\\\\/", "/a{4294967296}/", "/[0-9]{1,99999999999}/", "/" + "(" * 120 + "a" + ")" * 120 + "/", "/(?i)a(?z)/"]
